@@ -128,7 +128,7 @@ def header_branch(ctx):
                 else:
                     ctx.fail('C09.3', w, s.stmt, 'on the 2D branch the array length is `%s`, not 4*len(geom.traces)' % (
                         [U(d) for d in defs],))
-    check_sizes(ctx, ht, 'C09.3')
+    check_sizes(ctx, ht, 'C09.3', select=lambda f: f.module.name == 'conversion_utils')
     # reader flag and resolver
     facts, al, flag = RF.mode_facts(P, '2d')
     ctx.ok('C09.3', P.func(RF.READER + '.__init__'), flag, 'reader 2D flag is `%s = blockshape[0] == 1`' % flag)
